@@ -653,5 +653,5 @@ def mixed_spec(c=None, p_scenario=0.5):
     c = c or DEFAULT
     parts = [design_spec(c), design_spec(c), scenario_spec(c), scenario_spec(c)]
     if "repeat" in c["blocks"] or c.get("round_skeleton"):
-        parts.append(round_skeleton(c))
+        parts += [round_skeleton(c) for _ in range(int(c.get("round_share", 1)))]      # checks about RandomGen's enumeration take a larger share
     return st.one_of(*parts)
